@@ -35,7 +35,71 @@ reg = Contract(
               "all(implies(k != node.macro_name, has_key(self._program.macros, k) and self._program.macros[k] is old(self._program.macros[k])) for k in old(self._program.macros))"),
              ("marked-registered", "node.is_registered")])
 
-CONTRACTS = [mcm, reg]
+# ---- (d) edit protection: MethodManager._validate_liveedit_method --------------------------------------------------------------
+from pyvc.smt import Val, mk_bool          # noqa: E402
+from pyvc.state import SV                  # noqa: E402
+from pyvc.repo import Ty                   # noqa: E402
+GCf = z3.Function("GET_CHILD_BY_ID", Val, Val, Val)        # new_program.get_child_by_id(id)
+MSf = z3.Function("MATCHES_SOURCE", Val, Val, z3.BoolSort())  # old_macro.matches_source(new_macro)
+
+
+def get_child(ctx, args, kwargs):
+    """ProgramNode.get_child_by_id(id): the node with that id in the freshly parsed program, or None (tree search, assumed)"""
+    prog = ctx.ex.ev(ctx.node.func.value, ctx.fr)
+    out = SV(GCf(prog.term, args[0].term), Ty("Node", (), True))
+    ctx.ex.assume_type(out.term, out.ty, ctx.fr)
+    return out
+
+
+def matches_source(ctx, args, kwargs):
+    """MacroNode.matches_source(other): source-level equality of the two macro subtrees (assumed, external to this contract)"""
+    old = ctx.ex.ev(ctx.node.func.value, ctx.fr)
+    return SV(mk_bool(MSf(old.term, args[0].term)), Ty("bool"))
+
+
+def GC(ctx, prog, i):
+    return SV(GCf(prog.term, i.term), Ty("Node", (), True))
+
+
+def MS(ctx, a, b):
+    return SV(mk_bool(MSf(a.term, b.term)), Ty("bool"))
+
+
+def parse_new(ctx, args, kwargs):
+    """MethodManager._parse(method): a freshly parsed ProgramNode (parser not under this contract; it does not touch the old program)"""
+    out = ctx.fresh("new_program", "ProgramNode")
+    ctx.ex.assume_type(out.term, out.ty, ctx.fr)
+    return out
+
+
+def opaque_state(ctx, args, kwargs):
+    """_get_method_state / extract_tree_state: read-only summaries of the old program"""
+    out = ctx.fresh("state", "MethodState" if "method_state" in ctx.text else None)
+    if out.ty is not None:
+        ctx.ex.assume_type(out.term, out.ty, ctx.fr)
+    return out
+
+
+for _h in (get_child, matches_source, parse_new, opaque_state):
+    _h.modifies = []
+SPEC_FUNCS = {"GC": GC, "MS": MS}
+MAC = "old_program.macros[key_at(old_program.macros, j)]"
+KEPT = (f"implies({MAC}.run_started_count > 0, GC(new_program, {MAC}.id) is not None and is_instance(GC(new_program, {MAC}.id), 'MacroNode') "
+        f"and MS({MAC}, GC(new_program, {MAC}.id)))")
+liveedit = Contract(
+    target="openpectus.engine.method_manager:MethodManager._validate_liveedit_method",
+    types={"self": "MethodManager", "new_method": "ParserMethod", "MethodManager._program": "ProgramNode", "ProgramNode.macros": "dict[str, MacroNode]",
+           "old_program": "ProgramNode", "new_program": "ProgramNode", "MacroNode.run_started_count": "int", "Node.id": "str",
+           "old_macro_node": "MacroNode"},
+    calls={"new_program.get_child_by_id": get_child, "old_macro_node.matches_source": matches_source, "self._parse": parse_new,
+           "self._get_method_state": opaque_state, "old_program.extract_tree_state": opaque_state},
+    options={"lenient": True, "protected_prefixes": (), "opaque_subscript": True},
+    raises=None,
+    ensures=[("an-accepted-edit-keeps-every-started-macro-unchanged", f"all({KEPT} for j in range(len(old_program.macros)))")],
+    loops={"for old_macro_node in old_program.macros.values()": LoopSpec(invariant=[f"all({KEPT} for j in range(idx))"], frame={}),
+           "for new_line in new_method.lines": LoopSpec(invariant=[], frame={})})
+
+CONTRACTS = [mcm, reg, liveedit]
 TARGETS = [c.key for c in CONTRACTS]
 LEVEL = "other"
 
@@ -50,13 +114,15 @@ def _mk(fn):
 
 NATIVE = [("native:self-call-as-second-call", _mk("scenario_self_call_as_second_call")),
           ("native:cycle-among-other-macros-terminates", _mk("scenario_cycle_among_other_macros")),
-          ("native:indirect-self-call-through-second-call", _mk("scenario_indirect_via_second_call"))]
+          ("native:indirect-self-call-through-second-call", _mk("scenario_indirect_via_second_call")),
+          ("native:live-edit-of-a-started-macro-is-rejected", _mk("scenario_edit_of_a_started_macro"))]
 BOUNDED = ["indirect self calls and termination on cyclic macro tables: three native scenarios on the real parser/MacroNode (no variant for the "
            "recursion is proved: it needs a cardinality argument over the visited set that the solvers do not do)"]
 TRUSTED = ["Node.name is the stripped argument text (parser guarantee)", "annotations as type invariants"]
 CLAUSES = {"calling a macro runs the most recently defined body of that name": "_register_macro contract (proved); the call looks the name up in the same table (visit_CallMacroNode is a generator, not under contract)",
            "a call that would make a macro call itself fails instead of recursing": "direct self call found among all children (proved); indirect / cyclic cases by native scenarios (bounded); the raise in visit_CallMacroNode is not under contract",
-           "once per call, lines in order; a started macro may not be edited": "NOT covered"}
+           "a macro that has already started may not be edited or removed": "(d) _validate_liveedit_method: an edit is accepted only if every started macro still exists as a macro with matching source (loop invariant over all macros); get_child_by_id / matches_source assumed",
+           "once per call, lines in order": "NOT covered"}
 EXPLANATION = "Partial claim: registration law and the direct-self-call lemma proved on the real functions; indirect and cyclic cases by bounded native scenarios."
 
 
